@@ -245,7 +245,7 @@ theorem evoPopInv_step (env : Env) (init : Algo) (hb : IsBase init) (initSize : 
         obtain ⟨hitok, _⟩ := hent _ hmem
         simp only
         rcases feedback_evolution_form env init hb initSize hist.length (fedCount hist) si ini g pop pend it
-            (it.reward.getD r) hitok with ⟨e, he⟩ | ⟨it2, si', ini', g', hf, hseq, hrew, hgid, hinit⟩
+            (it.reward.getD r) hitok with ⟨e, he⟩ | ⟨it2, si', ini', g', hf, hseq, hrew, hgid, hinit, _⟩
         · rw [he]
           exact ⟨si, ini, g, pop, pend, rfl, hpend, hent, hpop, hbound, hinj⟩
         · rw [hf]
@@ -329,5 +329,21 @@ theorem live_evolution_pop (env : Env) (init : Algo) (hb : IsBase init) (initSiz
     · intro e he; simp [fedOf] at he
     · intro a ha; simp [fedOf] at ha
   · exact fun l e hl => evoPopInv_step env init hb initSize l e hl
+
+/-- `Evolution.recover` (repaired source, base initialiser) on ANY well-labelled history. -/
+theorem recover_evolution_of_ok (env : Env) (hg : env.q.evoInitGenBump = false) (ho : env.q.evoProposalOrder = false)
+    (init : Algo) (hb : IsBase init) (initSize : Option Nat) (h : Hist) (hok : ∀ e ∈ h, EntryOk e) :
+    ∃ si' ini' g', recover env (.evolution init initSize) (setup (.evolution init initSize)) h
+      = .ok (.evolution h.length (popOf env ([], 0) ((fedOf (sortByFeedback h)).map (·.1))).2 si' ini' g'
+              (popOf env ([], 0) ((fedOf (sortByFeedback h)).map (·.1))).1 []) := by
+  obtain ⟨g', hloop⟩ := evoRecover_loop_pop env hg (.evolution init initSize) (sortByFeedback h)
+    (fun e he => hok e ((mem_sortByFeedback e _).mp he)) 0 0 (setup init) false 0 [] []
+  have htot : ∃ si', recover env init (setup init) (h.filter isInitFed) = .ok si' := by
+    rcases hb with rfl | ⟨seed, sd, rfl⟩
+    · simp only [recover, setup, baseRecover_sweeping]; exact ⟨_, rfl⟩
+    · simp only [recover, setup, baseRecover_random]; exact ⟨_, rfl⟩
+  obtain ⟨si', hsi'⟩ := htot
+  simp only [recover, ho, setup, hloop, hsi', Bool.false_eq_true, ↓reduceIte, length_sortByFeedback, Nat.zero_add]
+  exact ⟨_, _, _, rfl⟩
 
 end Pg.C15
